@@ -527,7 +527,7 @@ def cast_value(v, src_fam, target):
         if src_fam == "date":
             return v.isoformat()
         if src_fam == "datetime":
-            return UNDEF  # SQLite keeps text as stored; fractional format differs -> not compared
+            return v.strftime("%Y-%m-%d %H:%M:%S.%f")  # documented: YYYY-MM-DD HH:MM:SS.SSSSSS
         if src_fam == "str":
             return v
         raise RefBug(f"cast {src_fam}->str")
